@@ -75,7 +75,27 @@ Section Session.
     apply run_readout_st_new.
   Qed.
 
+  (* an invalid run is refused whatever the detector carries, and leaves it as it was *)
+  Lemma scenario_st_invalid : rp_complete_nan G = true ->
+    forall f r s nd ops prog st,
+    ~ ro_valid (final r s nd ops) ->
+    exists stage, scenario_st A zero G E SRAlwaysNew f r s nd ops prog st = (Rejected stage, st).
+  Proof.
+    intros HG f r s nd ops prog st Hnv. unfold scenario_st.
+    destruct (ctor G f r s nd) as [ro|] eqn:Hc; [|eexists; reflexivity].
+    apply ctor_some in Hc. subst ro.
+    destruct (apply_ops G _ ops) as [ro'|] eqn:Ha; [|eexists; reflexivity].
+    apply apply_ops_some in Ha. subst ro'. exists 2%Z. unfold run_readout_st.
+    assert (Hs : forall prev ro, set_readout G SRAlwaysNew prev ro = rp_init G ro) by (intros [p|] ro; reflexivity).
+    rewrite Hs. fold (final r s nd ops).
+    destruct (rp_init G (final r s nd ops)) as [p|] eqn:Hp; [|reflexivity].
+    exfalso. destruct (rp_init_fields _ p Hp) as [ts [Ht [Hg _]]].
+    pose proof (run_invalid A zero G E HG (final r s nd ops) prog (ds_det st) Hnv) as Hr.
+    unfold run_readout in Hr. rewrite Ht, Hg in Hr. discriminate Hr.
+  Qed.
+
   Hypothesis HE : empty_table_ok E = true.
+  Hypothesis HN : g_ndarray G = true.
 
   (* ... and that does not depend on the buckets either: the outcome of a run is a function of the run's own
      readout and models, whatever state (buckets, ReadoutProperties object) the detector is in *)
@@ -111,7 +131,7 @@ Section Session.
 
   (* the clock of every step of every valid run of a session *)
   Lemma session_clock : forall runs st k r,
-    nth_error runs k = Some r -> rs_form r = FList ->
+    nth_error runs k = Some r ->
     valid_scenario (rs_raw r) (rs_start r) (rs_nd r) (rs_ops r) ->
     exists qs s0 trace,
       r_times (final (rs_raw r) (rs_start r) (rs_nd r) (rs_ops r)) = R1 (map TQ qs)
@@ -126,23 +146,24 @@ Section Session.
            /\ c_first (o_clock o) = Nat.eqb i 0
            /\ c_last (o_clock o) = Nat.eqb (S i) (length qs).
   Proof.
-    intros runs st k r Hk Hf Hv.
-    destruct (st_runs A zero G E _ _ _ _ (rs_prog r) (blank A) Hv) as [qs [s0 [H1 [H2 [H3 H4]]]]].
-    destruct (st_clock A zero G E _ _ _ _ (rs_prog r) (blank A) Hv) as [qs' [s0' [trace [H1' [H2' [H4' Hc]]]]]].
+    intros runs st k r Hk Hv.
+    destruct (st_runs A zero G E HN (rs_form r) _ _ _ _ (rs_prog r) (blank A) Hv) as [qs [s0 [H1 [H2 [H3 H4]]]]].
+    destruct (st_clock A zero G E HN (rs_form r) _ _ _ _ (rs_prog r) (blank A) Hv)
+      as [qs' [s0' [trace [H1' [H2' [H4' Hc]]]]]].
     rewrite H1 in H1'. injection H1' as Hq.
     assert (Hqq : qs' = qs).
     { clear -Hq. revert qs' Hq. induction qs as [|a qs IH]; intros [|b qs'] H; try discriminate; [reflexivity|].
       simpl in H. injection H as Ha Hr. subst b. f_equal. apply IH. exact Hr. }
     subst qs'. rewrite H2 in H2'. injection H2' as <-.
     exists qs, s0, trace. split; [exact H1|]. split; [exact H2|]. split.
-    - rewrite (session_nth runs st k r Hk). unfold run_alone. rewrite Hf, H4'. reflexivity.
+    - rewrite (session_nth runs st k r Hk). unfold run_alone. rewrite H4'. reflexivity.
     - split; [|exact Hc].
       rewrite H4 in H4'. injection H4' as <-. rewrite trace_length, map_length. reflexivity.
   Qed.
 
   (* the buckets at the start of every step of every valid run of a session *)
   Lemma session_step_start : forall runs st k r,
-    nth_error runs k = Some r -> rs_form r = FList ->
+    nth_error runs k = Some r ->
     valid_scenario (rs_raw r) (rs_start r) (rs_nd r) (rs_ops r) ->
     exists trace,
       nth_error (session A zero G E SRAlwaysNew runs st) k = Some (Ran trace)
@@ -157,9 +178,9 @@ Section Session.
                        else Some zero
               end.
   Proof.
-    intros runs st k r Hk Hf Hv.
-    destruct (st_step_start A zero G E HE _ _ _ _ (rs_prog r) (blank A) Hv) as [trace [Ht Hb]].
+    intros runs st k r Hk Hv.
+    destruct (st_step_start A zero G E HN HE (rs_form r) _ _ _ _ (rs_prog r) (blank A) Hv) as [trace [Ht Hb]].
     exists trace. split; [|exact Hb].
-    rewrite (session_nth runs st k r Hk). unfold run_alone. rewrite Hf, Ht. reflexivity.
+    rewrite (session_nth runs st k r Hk). unfold run_alone. rewrite Ht. reflexivity.
   Qed.
 End Session.
